@@ -221,11 +221,44 @@ class Normalizer:
         return p
 
 
+def clear_denominators(nz, p, rounds=4):
+    """Multiply p by d^K for every inverse atom q (q*d = 1, d a sum) occurring with maximal power K, replacing
+    q^k d^K by d^(K-k).  Since d != 0, the result is zero iff p is zero."""
+    for _ in range(rounds):
+        target = None
+        for m in p.d:
+            for a, k in m:
+                t = nz.atoms.get(a)
+                if t is None or k <= 0:
+                    continue
+                df = nz.c._defof.get(t.get_id())
+                if df is not None and df[0] == 'inv':
+                    target = (a, df[1])
+                    break
+            if target:
+                break
+        if target is None:
+            return p
+        a, dterm = target
+        dpoly = nz.reduce(nz.from_z3(dterm))
+        K = max((dict(m).get(a, 0) for m in p.d), default=0)
+        out = P()
+        for m, cf in p.d.items():
+            e = dict(m)
+            k = e.pop(a, 0)
+            out = out + (P({frozenset(e.items()): cf}) * dpoly.pow(K - k))
+        p = nz.reduce(out)
+    return p
+
+
 def identically_zero(ctx, term):
     """True iff `term` normalises to 0 modulo the definitions of ctx (sound; incomplete)."""
     try:
         nz = Normalizer(ctx)
         p = nz.reduce(nz.from_z3(z3.simplify(term)))
+        if p.is_zero():
+            return True
+        p = clear_denominators(nz, p)
         return p.is_zero()
     except (TooBig, RecursionError, z3.Z3Exception):
         return False
